@@ -22,17 +22,17 @@ CHECKS = {
    "DESIGN.md section 5 C02"),
  "C03": (ENGINE_A, "model_checking",
    "stateless model checking of the real Compactor: exhaustive DFS over schedules of 1-2 compactor nodes at object-store-request / catalog-call granularity with preemption bound, plus one crash, injected error (before/after effect) or lease expiry placed at every point",
-   "Real Compactor::run_compaction_cycle over real Parquet chunks (rows carry unique ids) on both catalog back ends: one compactor x every single fault position x {before, after}; one/two compactors x every crash point (restart runs a fresh cycle); two compactors x all interleavings within 2 (3) preemptions, x lease expiry (+301 s) anywhere; datasets incl. a chunk straddling an hour boundary and L0+L1 chunks over several hours in two cycles. After EVERY transition: nothing queryable became unqueryable and every listed object exists; at the end: reachable id multiset == original, each once, every row found by a point lookup of its own timestamp through the time index; merged chunk level = max(replaced)+1, levels never decrease; epilogue of every execution: the grace period passes, every live compactor runs one more cycle, every listed object must still exist and the rows must still be the original ones.",
+   "Real Compactor::run_compaction_cycle over real Parquet chunks (rows carry unique ids) on both catalog back ends: one compactor x every single fault position x {before, after}; one/two compactors x every crash point (restart runs a fresh cycle); two compactors x all interleavings within 2 (3) preemptions, x lease expiry (+301 s) anywhere; datasets incl. a chunk straddling an hour boundary and L0+L1 chunks over several hours in two cycles. After EVERY transition: nothing queryable became unqueryable and every listed object exists; at the end: reachable id multiset == original, each once, every row found by a point lookup of its own timestamp through the time index; merged chunk level = max(replaced)+1, levels never decrease; epilogue of every execution: the grace period passes, every live compactor runs one more cycle, every listed object must still exist and the rows must still be the original ones. (b) mixed-schema data sets (the ingester starts a new chunk at every schema change): every sequence of 2-3 chunk shapes out of 6 (label columns [host] / [region] / [host,region] / [region,host] / none, Timestamp(ns) or Int64 time column) in one hour x both back ends x L0 / L1, two real cycles, the multiset of WHOLE rows (every non-null column value) before vs after.",
    "duplicates tolerated while a compaction is in flight; crash = abort at a quiescent point; the lease-renewal task gets a horizon of 1 request per execution; no state caching (tasks share memory the fingerprint cannot see)",
    "DESIGN.md section 5 C03"),
  "C04": (ENGINE_C, "exploration",
    "bounded-exhaustive differential enumeration of the real QueryNode::query against DataFusion over a MemTable of all ingested rows: grammar-generated WHERE clauses x literal forms x SELECT shapes over enumerated chunk layouts, both catalog back ends, statistics-bearing catalogs, compaction and node states; a recording catalog wrapper measures pruning and attributes each mismatch to its cause",
-   "Data sets of <=13 rows at instants on and +-1 ns around now, one hour ago and hour-bucket boundaries (2 metrics, host a/b/NULL); layouts: every chunking of a fixed family (one chunk, one per row in both flush orders, interleaved, straddling, nested, out of order; thorough: every cut into 2-3 contiguous chunks and every 2-chunk assignment of the small sets); Int64 and Timestamp(ns,UTC) columns; in-memory and object-store catalog, with and without true column statistics; L1 compaction before or between queries; warm node, first query of a node, same query twice, adaptive indexing on. Queries: ~60 WHERE templates (comparisons both ways, BETWEEN, =, IN, AND/OR/NOT incl. double negation, holes, redundant and repeated bounds) x bound assignments from a 16-18-point pool x 4 literal forms (integer, TIMESTAMP literal, to_timestamp_nanos, now()-relative), 15 SELECT shapes x 12 label predicates, 31 HAVING / derived-table shapes: 64 k evaluations quick, 4.5 M thorough, each compared with the full-scan answer.",
-   "DataFusion is evaluator and reference (only chunk selection, registration and binding are judged); results compared as multisets of rendered rows; both-reject counts as agreement; frozen clock; chunks written and registered directly with one schema; statistics hand-written (the repository writes none); catalog-cache staleness, one-sided windows, joins, unions, sub-queries and negative timestamps are outside the family; membership in the family is decided by the generator's own interval analysis",
+   "Data sets of <=13 rows at instants on and +-1 ns around now, one hour ago and hour-bucket boundaries (2 metrics, host a/b/NULL); layouts: every chunking of a fixed family (one chunk, one per row in both flush orders, interleaved, straddling, nested, out of order; thorough: every cut into 2-3 contiguous chunks and every 2-chunk assignment of the small sets); Int64 and Timestamp(ns,UTC) columns; in-memory and object-store catalog, with and without true column statistics; L1 compaction before or between queries; warm node, first query of a node, same query twice, adaptive indexing on. Queries: ~60 WHERE templates (comparisons both ways, BETWEEN, =, IN, AND/OR/NOT incl. double negation, holes, redundant and repeated bounds) x bound assignments from a 16-18-point pool x 4 literal forms (integer, TIMESTAMP literal, to_timestamp_nanos, now()-relative), 15 SELECT shapes x 12 label predicates, 31 HAVING / derived-table shapes: 64 k evaluations quick, 4.5 M thorough, each compared with the full-scan answer. Label-set sub-space: every sequence of 2-3 chunk shapes out of 4 label sets x both back ends x both time column types, windows selecting all / the first / the last chunk, plain / * / count and per label projection, IS [NOT] NULL, =, <>, GROUP BY, count(label), on a warm and on a fresh node, against one MemTable of all rows under the union of the columns.",
+   "DataFusion is evaluator and reference (only chunk selection, registration and binding are judged); results compared as multisets of rendered rows; both-reject counts as agreement; frozen clock; chunks written and registered directly (one schema per data set except in the label-set sub-space); statistics hand-written (the repository writes none); catalog-cache staleness, one-sided windows, joins, unions, sub-queries and negative timestamps are outside the family; membership in the family is decided by the generator's own interval analysis",
    "DESIGN.md section 5 C04"),
  "C05": (ENGINE_B, "model_checking",
    "explicit-state search (BFS with deduplication on directory image + reference state) over WAL operation histories executed on the real WriteAheadLog, with crash images derived from directory snapshots; every byte offset of the final crash enumerated",
-   "All histories up to depth 3 (quick) / 5 (thorough) over append small/large, truncate_before, persist_flushed_seq, reopen and crash-during-operation (structural cuts) for three segment limits (rotate every entry, two entries per segment, never); from every distinct state every byte offset of a crash during append / truncate / flushed_seq write is followed by reopen-check-append-reopen-check against a reference log: exactly the complete entries, in order, once; sequence numbers above everything acknowledged.",
+   "All histories up to depth 3 (quick) / 5 (thorough) over append small/large, truncate_before, persist_flushed_seq, reopen and crash-during-operation (structural cuts) for three segment limits (rotate every entry, two entries per segment, never); from every distinct state every byte offset of a crash during append / truncate / flushed_seq write is followed by reopen-check-append-reopen-check against a reference log: exactly the complete entries, in order, once; sequence numbers above everything acknowledged. Every read check also compares read_entries_after(k), for every k from 0 to one past the newest entry, with the list read_entries() returns.",
    "sync on every write: returned operations are durable; torn write = prefix of header++payload; atomic ordered create/unlink; persist_flushed_seq is called with the highest acknowledged sequence number",
    "DESIGN.md section 5 C05"),
  "C06": (ENGINE_A, "model_checking",
@@ -87,8 +87,8 @@ CHECKS = {
    "DESIGN.md section 5 C20"),
  "C09": (ENGINE_B, "model_checking",
    "explicit-state search over histories of the real Compactor (cycle / clock / pin / unpin / restart) with every physical DELETE and retention removal judged against catalog history, grace, pins and cut-off; plus stateless model checking of all schedules of a GC pass against a pinning query",
-   "(a) all histories up to depth 4 (quick) / 6 (thorough) over {compaction cycle, a cycle during which the catalog commit / the merged upload / the lease completion fails (before or after taking effect), clock +100 s/+301 s/+1 day, pin(2 sets), unpin, restart via Compactor::run} on both catalog back ends with grace 0/300 s and retention 1 day over a dataset with chunks inside the window, older than, straddling the cut-off and with negative timestamps; from every state every deletion that was ever persisted at the end of a cycle must be carried out after unpin + clock-past-grace + restart. (b) every schedule within 2 (3) preemptions of run_compaction_cycle vs QueryNode::query sharing a ChunkPinRegistry, catalog calls and store requests as scheduling points, grace 0/30/300 s: no DELETE is sent while the chunk is pinned.",
-   "wall and monotonic clocks advance together; the harness is the only other source of catalog changes; quick tier does not make the query's chunk-data reads scheduling points",
+   "(a) all histories up to depth 4 (quick) / 6 (thorough) over {compaction cycle, a cycle during which the catalog commit / the merged upload / the lease completion fails (before or after taking effect), clock +100 s/+301 s/+1 day, pin(2 sets), unpin, restart via Compactor::run} on both catalog back ends with grace 0/300 s and retention 1 day over a dataset with chunks inside the window, older than, straddling the cut-off and with negative timestamps; from every state every deletion that was ever persisted at the end of a cycle must be carried out after unpin + clock-past-grace + restart. (b) every schedule within 2 (3) preemptions of run_compaction_cycle vs QueryNode::query sharing a ChunkPinRegistry, catalog calls and store requests as scheduling points, grace 0/30/300 s: no DELETE is sent while the chunk is pinned. (c) the real ChunkPinRegistry as a state machine: BFS to depth 6 (8) over pin / try_pin of every ordering of two paths, drop of any live guard, begin_delete / drop of a claim, deduplicated on the reference state; after every operation is_pinned, pinned_count and the verdict agree with a reference (pin counts, claims).",
+   "wall and monotonic clocks advance together; the harness is the only other source of catalog changes; quick tier does not make the query's chunk-data reads scheduling points; (c) assumes one collector per process (a claimed path is not claimed again before the claim is dropped)",
    "DESIGN.md section 5 C09"),
  "C10": (ENGINE_A, "model_checking",
    "stateless model checking of the real QueryNode: exhaustive DFS over all interleavings of 2-3 queries at catalog-call and registration/planning pause-point granularity, each result compared with the same query run alone",
